@@ -22,8 +22,11 @@ use omaha_client::protocol::response::{
 use serde_json::{json, Map, Value};
 use std::io::{Read, Write};
 
-/// stack of the thread every parse runs on
+/// stack of the thread every parse runs on (VH_C16_STACK overrides, for calibration runs)
 const STACK: usize = 256 * 1024;
+fn stack_size() -> usize {
+    std::env::var("VH_C16_STACK").ok().and_then(|s| s.parse().ok()).unwrap_or(STACK)
+}
 const XSSI: &[u8] = b")]}'\n";
 
 // ---------------------------------------------------------------- running the real parser
@@ -35,7 +38,7 @@ enum Obs {
 
 fn parse_on_small_stack(bytes: Vec<u8>) -> Obs {
     let h = std::thread::Builder::new()
-        .stack_size(STACK)
+        .stack_size(stack_size())
         .spawn(move || std::panic::catch_unwind(|| parse_json_response(&bytes).ok()))
         .expect("spawn");
     match h.join() {
@@ -1116,10 +1119,81 @@ fn syntax_cases() -> Vec<Value> {
     v
 }
 
+/// one document containing every struct of the protocol, then, for every
+/// struct and every known field of it: the field removed, null, of each other
+/// JSON shape, duplicated; and every struct in array form
+fn systematic_cases() -> Vec<Value> {
+    let o = |k: Kind, kvs: Vec<(&str, J)>| J::Obj(k, kvs.into_iter().map(|(a, b)| (jk(a), b)).collect());
+    let st = |x: &str| J::Str(x.to_string());
+    let pkg = |n: &str| o(Kind::Package, vec![("name", st(n)), ("required", J::Bool(true)), ("size", J::Num("4294967297".into())),
+                                               ("hash", st("h")), ("hash_sha256", st("h2")), ("fp", st("1.f")), ("ext", J::Num("1".into()))]);
+    let full = o(Kind::Wrapper, vec![("response", o(Kind::Response, vec![
+        ("protocol", st("3.0")), ("server", st("prod")),
+        ("daystart", o(Kind::DayStart, vec![("elapsed_days", J::Num("5000".into())), ("elapsed_seconds", J::Num("86399".into()))])),
+        ("app", J::Arr(vec![o(Kind::App, vec![
+            ("appid", st("{app}")), ("status", st("ok")), ("cohort", st("1:2")), ("cohorthint", st("")), ("cohortname", st("stable")),
+            ("ping", o(Kind::Ping, vec![("status", st("ok"))])),
+            ("event", J::Arr(vec![o(Kind::Event, vec![("status", st("ok"))])])),
+            ("urgent", J::Bool(true)),
+            ("updatecheck", o(Kind::UpdateCheck, vec![
+                ("status", st("ok")), ("info", st("i")), ("realm", st("r")),
+                ("urls", o(Kind::Urls, vec![("url", J::Arr(vec![o(Kind::Url, vec![("codebase", st("http://a/"))]), o(Kind::Url, vec![("codebase", st("http://b/"))])]))])),
+                ("manifest", o(Kind::Manifest, vec![
+                    ("version", st("1.2.3.4")),
+                    ("actions", o(Kind::Actions, vec![("action", J::Arr(vec![o(Kind::Action, vec![("event", st("install")), ("run", st("r.exe")), ("arguments", st("-q"))])]))])),
+                    ("packages", o(Kind::Packages, vec![("package", J::Arr(vec![pkg("p1"), pkg("p2")]))])),
+                ])),
+            ])),
+        ])])),
+    ]))]);
+    let mut v = vec![case("sys-full", &compact(&full), false, false)];
+    let mut ns = vec![];
+    nodes(&full, &mut vec![], &mut ns);
+    let shapes: Vec<(&str, J)> = vec![
+        ("null", J::Null), ("bool", J::Bool(false)), ("int", J::Num("7".into())), ("neg", J::Num("-7".into())), ("string", st("7")),
+        ("array", J::Arr(vec![])), ("object", J::Obj(Kind::Other, vec![])), ("big", J::Num("18446744073709551616".into())),
+        ("over32", J::Num("4294967296".into())), ("max32", J::Num("4294967295".into())), ("max64", J::Num("18446744073709551615".into())),
+        ("float", J::Num("1.5".into())), ("negzero", J::Num("-0".into())),
+    ];
+    for (path, kind) in ns.iter().filter(|(_, k)| *k != Kind::Other) {
+        let fields: Vec<String> = match at(&mut full.clone(), path) { J::Obj(_, kvs) => kvs.iter().map(|(k, _)| match k { J::Str(s) => s.clone(), _ => String::new() }).collect(), _ => vec![] };
+        for (i, f) in fields.iter().enumerate() {
+            let mut t = full.clone();
+            if let J::Obj(_, kvs) = at(&mut t, path) { kvs.remove(i); }
+            v.push(case(&format!("sys-removed-{:?}-{}", kind, f), &compact(&t), false, false));
+            for (sn, sh) in &shapes {
+                let mut t = full.clone();
+                if let J::Obj(_, kvs) = at(&mut t, path) {
+                    if std::mem::discriminant(&kvs[i].1) == std::mem::discriminant(sh) && !matches!(sh, J::Num(_)) { continue; }
+                    kvs[i].1 = sh.clone();
+                }
+                v.push(case(&format!("sys-shape-{:?}-{}-{}", kind, f, sn), &compact(&t), false, matches!(*sn, "big" | "float" | "negzero")));
+            }
+            let mut t = full.clone();
+            if let J::Obj(_, kvs) = at(&mut t, path) { let e = kvs[i].clone(); kvs.push(e); }
+            v.push(case(&format!("sys-dup-{:?}-{}", kind, f), &compact(&t), false, false));
+        }
+        // array form, exact and one short / one long
+        for delta in [0i32, -1, 1] {
+            let mut t = full.clone();
+            let node = at(&mut t, path);
+            if let J::Obj(_, kvs) = node {
+                let mut elems: Vec<J> = known(*kind).iter()
+                    .map(|(n, _)| kvs.iter().find(|(k, _)| matches!(k, J::Str(s) if s == n)).map(|(_, x)| x.clone()).unwrap_or(J::Null)).collect();
+                if delta < 0 { elems.pop(); } else if delta > 0 { elems.push(J::Null); }
+                *node = J::Arr(elems);
+            }
+            v.push(case(&format!("sys-array-form-{:?}{:+}", kind, delta), &compact(&t), false, false));
+        }
+    }
+    v
+}
+
 // ---------------------------------------------------------------- generate
 pub fn generate(rng: &mut Rng, n: usize, thorough: bool) -> Vec<Value> {
     let mut v = fixed_cases();
     v.extend(syntax_cases());
+    v.extend(systematic_cases());
     // n documents of the grammar
     let mut docs: Vec<J> = vec![];
     for i in 0..n {
